@@ -48,8 +48,17 @@ Evaluate(t, R) == /\ Going
                                                     ELSE IF reg[t].lay = "transposed" THEN [u \in 1..N |-> ValueT(reg[t].code, u, R)]
                                                     ELSE [u \in 1..N |-> Value(reg[t].code, u, R)]])
                   /\ UNCHANGED <<reg, done>>
+\* two draw variables of the two types in one formula: MonteCarlo((z_a + z_b) * x).  (The replay registers for the first
+\* type a generator whose array holds integers, for the second one whose values are halves, and doubles z_b in the formula:
+\* every series keeps its own values in the table whatever the other series look like.)
+Evaluate2(ta, tb, R) ==
+                /\ Going /\ ta # tb /\ reg[ta].lay = "rows" /\ reg[tb].lay = "rows"
+                /\ hist' = Append(hist, [op |-> "evaluate2", type |-> ta, type2 |-> tb, code |-> reg[ta].code, lay |-> "rows", R |-> R,
+                                         refused |-> FALSE, code2 |-> reg[tb].code,
+                                         want |-> [u \in 1..N |-> Value(reg[ta].code, u, R) + Value(reg[tb].code, u, R)]])
+                /\ UNCHANGED <<reg, done>>
 Finish == ~done /\ Len(hist) = MaxSteps /\ done' = TRUE /\ UNCHANGED <<reg, hist>>
-Next == (\E t \in Types, c \in Codes, lay \in Layouts : Register(t, c, lay)) \/ (\E t \in Types, R \in Rs : Evaluate(t, R)) \/ Finish
+Next == (\E t \in Types, c \in Codes, lay \in Layouts : Register(t, c, lay)) \/ (\E t \in Types, R \in Rs : Evaluate(t, R)) \/ (\E ta, tb \in Types, R \in Rs : Evaluate2(ta, tb, R)) \/ Finish
 Spec == Init /\ [][Next]_vars
 
 \* an evaluation is a function of the registry and its own arguments only
@@ -57,7 +66,7 @@ Memoryless == \A i, j \in 1..Len(hist) :
     (hist[i].op = "evaluate" /\ hist[j].op = "evaluate" /\ hist[i].code = hist[j].code /\ hist[i].lay = hist[j].lay /\ hist[i].R = hist[j].R)
         => hist[i].want = hist[j].want
 \* a history is interesting when the same (type, R) is evaluated under two different generators
-Interesting == \E i, j \in 1..Len(hist) : i < j /\ hist[i].op = "evaluate" /\ hist[j].op = "evaluate"
+Interesting == (\E i \in 1..Len(hist) : hist[i].op = "evaluate2") \/ \E i, j \in 1..Len(hist) : i < j /\ hist[i].op = "evaluate" /\ hist[j].op = "evaluate"
                   /\ hist[i].type = hist[j].type /\ hist[i].R = hist[j].R /\ (hist[i].code # hist[j].code \/ hist[i].lay # hist[j].lay)
 EmitInv == (done /\ Interesting) => PrintT(ToJson([steps |-> hist]))
 =============================================================================
